@@ -1798,6 +1798,9 @@ fn build_bp_index(
         );
     }
 
+    // Index only the words that hold the first `len` bits. Borrowed storage
+    // may carry surplus whole words; their 1-bits must not be counted.
+    let words = &words[..words.len().min(len.div_ceil(64))];
     let num_words = words.len();
     let num_l1 = num_words.div_ceil(FACTOR_L1);
     let num_l2 = num_l1.div_ceil(FACTOR_L2);
@@ -2001,10 +2004,15 @@ fn build_bp_index(
 /// Clear bits at or above `len` in the final word (same canonicalization as
 /// `BitVec::with_config`), so stray 1-bits cannot skew counting (#188).
 fn mask_final_word_in_place(words: &mut [u64], len: usize) {
-    if len % 64 != 0 {
-        if let Some(last) = words.last_mut() {
-            *last &= (1u64 << (len % 64)) - 1;
-        }
+    // Mask the word holding bit `len - 1`, not `words.last()`: when `words` is
+    // longer than `len` needs, the last word is a surplus word and the tail of
+    // the real final word stayed unmasked. Surplus words are cleared entirely.
+    let used_words = len.div_ceil(64).min(words.len());
+    if len % 64 != 0 && len / 64 < words.len() {
+        words[len / 64] &= (1u64 << (len % 64)) - 1;
+    }
+    for word in &mut words[used_words..] {
+        *word = 0;
     }
 }
 
@@ -2326,6 +2334,15 @@ impl<W: AsRef<[u64]>, S: SelectSupport> BalancedParens<W, S> {
         self.words.as_ref()
     }
 
+    /// The words that hold the first `len` bits. Storage may be longer than
+    /// `len` needs; the indices built by `build_bp_index` cover exactly this
+    /// prefix, so every query reads the storage through it.
+    #[inline]
+    fn used_words(&self) -> &[u64] {
+        let words = self.words.as_ref();
+        &words[..words.len().min(self.len.div_ceil(64))]
+    }
+
     /// Get the total number of 1-bits (open parentheses).
     #[inline]
     pub fn total_ones(&self) -> usize {
@@ -2347,7 +2364,7 @@ impl<W: AsRef<[u64]>, S: SelectSupport> BalancedParens<W, S> {
     pub fn select1(&self, k: usize) -> Option<usize> {
         self.select.select1(
             BpSelectCtx {
-                words: self.words.as_ref(),
+                words: self.used_words(),
                 len: self.len,
                 total_ones: self.total_ones,
                 rank_l1: &self.rank_l1,
@@ -2399,7 +2416,7 @@ impl<W: AsRef<[u64]>, S: SelectSupport> BalancedParens<W, S> {
         if p >= self.len {
             return false;
         }
-        let words = self.words.as_ref();
+        let words = self.used_words();
         let word_idx = p / 64;
         let bit_idx = p % 64;
         (words[word_idx] >> bit_idx) & 1 == 1
@@ -2425,7 +2442,7 @@ impl<W: AsRef<[u64]>, S: SelectSupport> BalancedParens<W, S> {
         }
         let p = p.min(self.len);
 
-        let words = self.words.as_ref();
+        let words = self.used_words();
         let word_idx = p / 64;
         let bit_idx = p % 64;
 
@@ -2483,7 +2500,7 @@ impl<W: AsRef<[u64]>, S: SelectSupport> BalancedParens<W, S> {
     /// words strictly before the partial word, which is always counted through
     /// the `bit_idx` mask (#188).
     fn rank1_slow(&self, p: usize) -> usize {
-        let words = self.words.as_ref();
+        let words = self.used_words();
         let word_idx = p / 64;
         let bit_idx = p % 64;
 
@@ -2540,7 +2557,7 @@ impl<W: AsRef<[u64]>, S: SelectSupport> BalancedParens<W, S> {
             FromL2,
         }
 
-        let words = self.words.as_ref();
+        let words = self.used_words();
         let mut state = State::FromL0;
         let mut excess = initial_excess;
         let mut pos = start_pos;
@@ -2704,7 +2721,7 @@ impl<W: AsRef<[u64]>, S: SelectSupport> BalancedParens<W, S> {
             return None;
         }
 
-        find_open(self.words.as_ref(), self.len, p)
+        find_open(self.used_words(), self.len, p)
     }
 
     /// Find enclosing open parenthesis (parent node).
@@ -2716,7 +2733,7 @@ impl<W: AsRef<[u64]>, S: SelectSupport> BalancedParens<W, S> {
             return None;
         }
 
-        enclose(self.words.as_ref(), self.len, p)
+        enclose(self.used_words(), self.len, p)
     }
 
     /// Navigate to parent node.
